@@ -182,6 +182,8 @@ func (e *Exec) step(fr *frame, st *State, in ssa.Instruction, b *ssa.BasicBlock)
 	case *ssa.MakeChan:
 		ref := e.allocRef(st, "chan")
 		fr.vals[x] = ref
+		e.smt.declareFun("chantype", []string{SInt}, SInt)
+		e.assume(st, tEq(app(SInt, "chantype", ref), tInt(int64(e.ti.tagOf(x.Type().Underlying().(*types.Chan).Elem())))))
 		e.ghostSorts["ghost_closed"] = SBool
 		arr := e.heapComp(st, "G.ghost_closed", SInt, arraySort(SInt, SBool))
 		e.setHeap(st, "G.ghost_closed", tStore(arr, ref, tFalse))
@@ -338,10 +340,17 @@ func (e *Exec) wellTyped(st *State, t types.Type, v Term) Term {
 	if _, ok := isVcSeq(t); ok {
 		return tTrue
 	}
+	if _, ok := isVcSet(t); ok {
+		return tTrue
+	}
 	switch t.Underlying().(type) {
 	case *types.Basic:
 		return rangeFact(t, v)
-	case *types.Pointer, *types.Map, *types.Chan:
+	case *types.Chan:
+		// channels of different types are different objects (the closed flag is one array for all)
+		e.smt.declareFun("chantype", []string{SInt}, SInt)
+		return tAnd(tLe(tInt(0), v), tLe(v, st.alloc), tOr(tEq(v, tInt(0)), tEq(app(SInt, "chantype", v), tInt(int64(e.ti.tagOf(t.Underlying().(*types.Chan).Elem()))))))
+	case *types.Pointer, *types.Map:
 		return tAnd(tLe(tInt(0), v), tLe(v, st.alloc))
 	case *types.Slice:
 		return tAnd(tLe(tInt(0), slArr(v)), tLe(slArr(v), st.alloc), tLe(tInt(0), slOff(v)), tLe(tInt(0), slLen(v)), tLe(slLen(v), slCap(v)),
@@ -602,6 +611,7 @@ func (e *Exec) makeInterface(st *State, v Value, t types.Type) Value {
 		f := "box." + smtIdent(typeShort(t))
 		e.smt.declareFun(f, []string{SInt}, SInt)
 		e.smt.declareFun("un"+f, []string{SInt}, SInt)
+		e.boxAxiom(f, SInt, tag)
 		r := app(SInt, f, ref)
 		e.assumeGlobalOrDrop(tAnd(tEq(app(SInt, "un"+f, r), ref), tEq(app(SInt, "dyntype", r), tInt(int64(tag))), tLt(r, tInt(0))))
 		return r
@@ -612,9 +622,24 @@ func (e *Exec) makeInterface(st *State, v Value, t types.Type) Value {
 	f := "box." + smtIdent(typeShort(t))
 	e.smt.declareFun(f, []string{vt.Sort}, SInt)
 	e.smt.declareFun("un"+f, []string{SInt}, vt.Sort)
+	e.boxAxiom(f, vt.Sort, tag)
 	r := app(SInt, f, vt)
 	e.assumeGlobalOrDrop(tAnd(tEq(app(vt.Sort, "un"+f, r), vt), tEq(app(SInt, "dyntype", r), tInt(int64(tag))), tLt(r, tInt(0))))
 	return r
+}
+
+// boxAxiom: boxing is a constructor — injective, tagged with its dynamic type, and disjoint from object
+// references (negative).  Emitted once per boxed type, so that it is also available for boxing under
+// quantifiers (where per-site facts are dropped).
+func (e *Exec) boxAxiom(f, argSort string, tag int) {
+	if e.boxAx == nil {
+		e.boxAx = map[string]bool{}
+	}
+	if e.boxAx[f] {
+		return
+	}
+	e.boxAx[f] = true
+	e.smt.axioms = append(e.smt.axioms, fmt.Sprintf("(assert (forall ((x %s)) (! (and (= (un%s (%s x)) x) (= (dyntype (%s x)) %d) (< (%s x) 0)) :pattern ((%s x)))))", argSort, f, f, f, tag, f, f))
 }
 
 func (e *Exec) assumeGlobalOrDrop(t Term) {
@@ -643,9 +668,11 @@ func (e *Exec) typeAssert(fr *frame, st *State, x *ssa.TypeAssert) bool {
 		if _, isPtr := at.Underlying().(*types.Pointer); isPtr {
 			e.smt.declareFun(f, []string{SInt}, SInt)
 			e.smt.declareFun("un"+f, []string{SInt}, SInt)
+			e.boxAxiom(f, SInt, tag)
 		} else {
 			e.smt.declareFun(f, []string{srt}, SInt)
 			e.smt.declareFun("un"+f, []string{SInt}, srt)
+			e.boxAxiom(f, srt, tag)
 		}
 		res = app(srt, "un"+f, v)
 		// boxing is surjective onto values of this dynamic type
@@ -956,8 +983,75 @@ func (e *Exec) chanClosed(st *State, ch Term) Term {
 	return tSelect(arr, ch, SBool)
 }
 
+// Channel invariants.  For a channel held in a struct field F of a type declared in package P:
+//   pred chaninv_F(v T) bool     — asserted at every send on such a channel in verified code, assumed at receives;
+//   pred chanassume_F(v T) bool  — only assumed at receives (trusted base).
+func chanField(v ssa.Value) (string, *types.Package) {
+	if u, ok := v.(*ssa.UnOp); ok && u.Op == token.MUL {
+		if fa, ok := u.X.(*ssa.FieldAddr); ok {
+			if pt, ok := fa.X.Type().Underlying().(*types.Pointer); ok {
+				if stt, ok := pt.Elem().Underlying().(*types.Struct); ok {
+					f := stt.Field(fa.Field)
+					return f.Name(), f.Pkg()
+				}
+			}
+		}
+	}
+	return "", nil
+}
+
+func (e *Exec) chanPred(fr *frame, st *State, ch ssa.Value, prefix string, v Value, entry *State) (Term, bool) {
+	name, pkg := chanField(ch)
+	if name == "" || pkg == nil {
+		return tTrue, false
+	}
+	pk := e.w.Pkgs[pkg.Path()]
+	if pk == nil || pk.SSA == nil || pk.SSA.Func(prefix+name) == nil {
+		return tTrue, false
+	}
+	// further parameters of the predicate are bound, by name, to locals of the function at hand
+	args := []Value{v}
+	pf := pk.SSA.Func(prefix + name)
+	for _, p := range pf.Params[1:] {
+		if p.Name() == "ridx" || p.Name() == "rvisited" {
+			return tTrue, false
+		}
+		lv, ok := e.namedLocal(fr, st, p.Name(), nil)
+		if !ok {
+			// not applicable in this function
+			return tTrue, false
+		}
+		args = append(args, lv)
+	}
+	return e.evalSpec(st, pkg.Path(), prefix+name, args, entry)
+}
+
+func (e *Exec) recvAssume(fr *frame, st *State, ch ssa.Value, v Value, ok Term) {
+	if e.spec > 0 || e.quant > 0 {
+		return
+	}
+	zero := tEq(v.(Term), e.ti.zero(ch.Type().Underlying().(*types.Chan).Elem()))
+	if g, found := e.chanPred(fr, st, ch, "chaninv_", v, fr.entryState); found {
+		name, _ := chanField(ch)
+		e.trusted("channel invariant chaninv_" + name + ": assumed at receives; checked at sends only in functions under contract")
+		e.assume(st, tImp(ok, g))
+		e.assume(st, tImp(tNot(ok), zero))
+	}
+	if g, found := e.chanPred(fr, st, ch, "chanassume_", v, fr.entryState); found {
+		name, _ := chanField(ch)
+		e.trusted("assumed fact about values received from channel field " + name + " (chanassume_" + name + ")")
+		e.assume(st, tImp(ok, g))
+	}
+}
+
 func (e *Exec) send(fr *frame, st *State, x *ssa.Send) bool {
 	ch := e.term(fr, st, x.Chan)
+	if e.spec == 0 && e.quant == 0 {
+		if g, found := e.chanPred(fr, st, x.Chan, "chaninv_", e.val(fr, st, x.X), fr.entryState); found {
+			name, _ := chanField(x.Chan)
+			e.oblige(st, "chaninv", "chaninv.send@"+name, g, e.pos(x.Pos()))
+		}
+	}
 	e.trusted("D3: channel operations: a receive yields an arbitrary value, a send does not change the verified state, select picks any case; goroutine interleaving is not modelled")
 	e.oblige(st, "safe", "safe.send@closed", tNot(e.chanClosed(st, ch)), e.pos(x.Pos()))
 	return true
@@ -971,8 +1065,12 @@ func (e *Exec) recv(fr *frame, st *State, x *ssa.UnOp) bool {
 	}
 	v := e.smt.fresh("recv", e.ti.sortOf(et))
 	e.assume(st, e.wellTypedDeep(st, et, v))
+	okT := e.smt.fresh("recvok", SBool)
+	if _, isStruct := et.Underlying().(*types.Struct); !isStruct {
+		e.recvAssume(fr, st, x.X, v, okT)
+	}
 	if x.CommaOk {
-		fr.vals[x] = &Tuple{[]Value{v, e.smt.fresh("recvok", SBool)}}
+		fr.vals[x] = &Tuple{[]Value{v, okT}}
 	} else {
 		fr.vals[x] = v
 	}
@@ -987,16 +1085,29 @@ func (e *Exec) selectInstr(fr *frame, st *State, x *ssa.Select) bool {
 		lo = -1
 	}
 	e.assume(st, tAnd(tLe(tInt(lo), idx), tLt(idx, tInt(int64(len(x.States))))))
-	vals := []Value{idx, e.smt.fresh("selok", SBool)}
-	for _, sc := range x.States {
+	selok := e.smt.fresh("selok", SBool)
+	vals := []Value{idx, selok}
+	for i, sc := range x.States {
 		if sc.Dir == types.RecvOnly {
 			et := sc.Chan.Type().Underlying().(*types.Chan).Elem()
 			v := e.smt.fresh("selrecv", e.ti.sortOf(et))
 			e.assume(st, e.wellTypedDeep(st, et, v))
+			if _, isStruct := et.Underlying().(*types.Struct); !isStruct {
+				// the received value is meaningful only if this case was chosen
+				cp := st.clone()
+				cp.pc = tAnd(st.pc, tEq(idx, tInt(int64(i))))
+				e.recvAssume(fr, cp, sc.Chan, v, selok)
+			}
 			vals = append(vals, v)
 		} else {
 			ch := e.term(fr, st, sc.Chan)
 			e.oblige(st, "safe", "safe.send@closed", tNot(e.chanClosed(st, ch)), e.pos(x.Pos()))
+			if e.spec == 0 && e.quant == 0 {
+				if g, found := e.chanPred(fr, st, sc.Chan, "chaninv_", e.val(fr, st, sc.Send), fr.entryState); found {
+					name, _ := chanField(sc.Chan)
+					e.oblige(st, "chaninv", "chaninv.send@"+name, tImp(tEq(idx, tInt(int64(i))), g), e.pos(x.Pos()))
+				}
+			}
 		}
 	}
 	fr.vals[x] = &Tuple{vals}
